@@ -44,6 +44,14 @@ func (k Keeper) OnRecvPacket(
 		return ack
 	}
 	receiver, _ := sdk.AccAddressFromBech32(data.Receiver)
+	// only a 20 byte account has an EVM address of its own (an interchain account has 32 bytes:
+	// cropping it would pay the tokens to an address nobody controls)
+	if len(receiver) != common.AddressLength {
+		event.Status = types.STATUS_FAILED
+		event.Message = "receiver is not an EVM account"
+		_ = ctx.EventManager().EmitTypedEvent(event)
+		return ack
+	}
 	denom, err := types.IBCDenom(packet.GetDestPort(), packet.GetDestChannel(), data.Denom)
 	if err != nil {
 		event.Status = types.STATUS_FAILED
